@@ -746,6 +746,15 @@ def sweep_program(ctx, name, rnd, quick):
         for unit in (b"x", "\u00e9".encode(), "\u20ac".encode(), "\U0001F600".encode()):
             for nbytes in range(lo, hi):
                 raw(a, b"PRIVMSG #c :" + b"x" * (nbytes % len(unit)) + unit * (nbytes // len(unit)))
+        # the same sweep with texts whose first and last byte belong together (CTCP, formatting): whatever a
+        # server does to keep such a pair intact after the cut must stay within the limit as well
+        frames = [(b"\x01ACTION ", b"\x01"), (b"\x0304", b"\x03"), (b"\x02", b"\x0f")]
+        verbs = [b"PRIVMSG #c :", b"NOTICE #c :", b"PRIVMSG bob :", b"TOPIC #c :"]
+        for fi, (pre, post) in enumerate(frames[:2] if quick else frames):
+            for unit in (b"x", "\u00e9".encode(), "\u20ac".encode(), "\U0001F600".encode()):
+                for nbytes in range(lo, hi + 40, 1 if unit == b"x" else 3):
+                    verb = verbs[(nbytes + fi) % len(verbs)] if unit != b"x" else verbs[0]
+                    raw(a, verb + pre + b"x" * (nbytes % len(unit)) + unit * (nbytes // len(unit)) + post)
         raw(a, b"PART #c")
     b.final_gets(["bob"] + subs, 60000)
     b.origin = origin
